@@ -4,6 +4,20 @@ import json, glob, os
 ROOT = os.path.dirname(os.path.dirname(os.path.abspath(__file__)))
 # seeds that the quick tier missed when first tried, and what was strengthened
 HISTORY = {
+ "C02-k": "missed at first (only inert tokens inside arguments); family expandable-tokens-in-arguments",
+ "C05-k": "missed at first (add-word route compared glyphs, not node kinds); Ligature vs Char distinguished",
+ "C08-k": "missed at first (delimiters of <= 2 tokens at the checkpoint); containers with >= 3 distinct elements",
+ "C09-k": "missed at first (no empty-named control sequence); family empty-cs",
+ "C09-l": "missed at first (undefined commands recorded by the harness handler, no undefined active character); family strict-short, active characters in every role",
+ "C11-k": "missed at first; family tfm-nextlarger-sevenbit",
+ "C11-l": "missed at first; family tfm-design-sizes, DESIGNSIZE members in pl-header",
+ "C12-k": "ended as a machinery error at first (start-up comparison of the default sfcode table); now judged cases in hlist-default-sfcodes",
+ "C12-l": "missed at first; family para-disc-replace (which also exposed defect D28, fixed by 513ea38)",
+ "C13-l": "missed at first (build-then-query only); family hyphenator-histories",
+ "C15-k": "missed at first (harness fonts always had all three metrics); partial glyphs through the trait's default method",
+ "C17-k": "missed at first (no character with 256 incoming links); star + hub self-loop shapes",
+ "C18-l": "missed at first (no lone CR inside a comment before a bracket); family source-comments",
+ "C19-k": "missed at first (file names of letters/digits only); families file-names, openin-names (which also exposed defect D27, fixed by bc00549)",
  "C01-j": "missed at first (no \\global\\let X=X self-alias among the assignment forms); G-/L-self-alias for every command kind",
  "C04-i": "missed at first (\\hyphenpenalty / \\exhyphenpenalty never below -10000 with a matching discretionary in the list); family disc-penalties",
  "C05-i": "missed at first (add_word route in boxworks-text not driven); family add-word-route",
